@@ -17,4 +17,13 @@ MUTANTS = [
  ('c19-registers-byteorder', 'C19', 'pymodbus/payload.py', "        fstring = '!H'\n        payload = self.build()", "        fstring = self._byteorder + 'H'\n        payload = self.build()"),
  ('c19-signed-for-unsigned', 'C19', 'pymodbus/payload.py', "        self._pointer += 4\n        fstring = 'I'", "        self._pointer += 4\n        fstring = 'i'"),
  ('c19-decode-string-pointer', 'C19', 'pymodbus/payload.py', "        self._pointer += size\n        s = self._payload[self._pointer - size:self._pointer]", "        s = self._payload[self._pointer:self._pointer + size]\n        self._pointer += max(size, 1)"),
+ # ---- C18
+ ('c18-seq-validate-gt', 'C18', 'pymodbus/datastore/store.py', "result &= ((self.address + len(self.values)) >= (address + count))", "result &= ((self.address + len(self.values)) > (address + count))"),
+ ('c18-seq-validate-start', 'C18', 'pymodbus/datastore/store.py', "result  = (self.address <= address)", "result  = (self.address < address) or address == 0"),
+ ('c18-sparse-validate-last', 'C18', 'pymodbus/datastore/store.py', "handle = set(range(address, address + count))", "handle = set(range(address, address + count - 1)) or set([address])"),
+ ('c18-get-slice-end', 'C18', 'pymodbus/datastore/store.py', "return self.values[start:start + count]", "return self.values[start:start + count + (start == 3)]"),
+ ('c18-zero-mode-twice', 'C18', 'pymodbus/datastore/context.py', "        if not self.zero_mode:\n            address = address + 1\n        _logger.debug(\"setValues[%d] %d:%d\" % (fx, address, len(values)))", "        if not self.zero_mode:\n            address = address + 2\n        _logger.debug(\"setValues[%d] %d:%d\" % (fx, address, len(values)))"),
+ ('c18-unit-range-ff', 'C18', 'pymodbus/datastore/context.py', "        if 0xf7 >= slave >= 0x00:\n            self._slaves[slave] = context", "        if 0xff >= slave >= 0x00:\n            self._slaves[slave] = context"),
+ ('c18-sparse-reset-list', 'C18', 'pymodbus/datastore/store.py', "        self.values = dict.fromkeys(self.values, self.default_value)", "        self.values = [self.default_value] * len(self.values)"),
+ ('c18-fx-map', 'C18', 'pymodbus/interfaces.py', "__fx_mapper = {2: 'd', 4: 'i'}", "__fx_mapper = {2: 'd', 4: 'h'}"),
 ]
